@@ -274,6 +274,178 @@ def siblings():
     return {"steps": ["sibling classes"], "what": bad[:4]} if bad else None
 
 
+LOOKUP = {"D": lambda c, n: c(n), "S": lambda c, n: c(None, name=n), "C": lambda c, n: c(None, None, n),
+          "M": lambda c, n: c(None, n)}
+POOL = {"D": [bc.DomainS, D1, D2, D3], "S": [bc.StrandS, S1, S2], "C": [bc.ComplexS, C1, C2],
+        "M": [bc.MacrostateS, M1, M2], "R": [bc.ReactionS, R1]}
+
+
+def derive(rng, parent):
+    """a class that comes into being NOW (class statement in a function, or type()), whatever is alive at that moment"""
+    if rng.random() < 0.5:
+        class Late(parent):
+            pass
+        return Late
+    return type(parent)("Late", (parent,), {})
+
+
+def session_doc(i, rng):
+    """the i-th document of a history: the SAME domain names (and lengths) as every other document of the history, used
+    inside strand and complex lines in a random order; strand / complex / macrostate names and all canonical forms differ
+    from those of the other documents (i further unpaired domains), so that documents never contend for a description"""
+    p, q, r = rng.sample(["a", "b", "c"], 3)
+    tail = "".join(" " + rng.choice(["a", "b", "c", "a*", "c*"]) for _ in range(i + 1))
+    return (f"length a = 6\nlength b = 7\nlength c = 5\nsup-sequence s{i} = {p} {q} {r}{tail}\n"
+            f"X{i} = {p}( {q}( + ) ) {r}{tail}\nY{i} = {q} {p}{tail}\nstructure Z{i} = s{i} + s{i} : {'.' * (4 + i)}+{'.' * (4 + i)}\n"
+            f"W{i} = {r}*( s{i} + ){tail}\n"
+            f"state X{i} = [X{i}]\nstate Y{i} = [Y{i}, Z{i}]\nreaction [condensed = 1 /s] X{i} -> Y{i}\n"
+            f"reaction [bind21 = 5 /M/s] X{i} + Y{i} -> Z{i}\n")
+
+
+def held_intact(sessions, bad, when):
+    """every object an earlier session handed out (and the application still holds) is the singleton of its name in the
+    class that was configured when it was read"""
+    for j, (cfg, out) in enumerate(sessions):
+        for k, f in (("D", "domains"), ("S", "strands"), ("C", "complexes"), ("M", "macrostates")):
+            for n, o in out[f].items():
+                try:
+                    again = LOOKUP[k](cfg[k], n)
+                except Exception as e:
+                    bad.append(f"{when}: the held {f[:-2] if k == "C" else f[:-1]} {n} of read {j} ({cfg[k].__name__}) cannot be looked up: {type(e).__name__}")
+                    return
+                if again is not o:
+                    bad.append(f"{when}: the held {f[:-2] if k == "C" else f[:-1]} {n} of read {j} is no longer the singleton of its name in {cfg[k].__name__}")
+                    return
+
+
+def io_sessions(rng):
+    """several reader sessions in ONE process, the results of the earlier ones still held: reconfiguration with or without an
+    intervening clear_io_objects(), classes that are derived between two sessions, documents that use the same domain names.
+    After every read: each object of the result AND each object inside it (domains of strands and complexes, members of
+    macrostates, reactants and products) is an instance of exactly the configured class and the singleton of its name in
+    that class's registry; what earlier sessions handed out is untouched."""
+    fresh()
+    late, sessions, steps, bad = [], [], [], []
+    for i in range(rng.randrange(2, 4)):
+        if i and rng.random() < 0.3:
+            objectio.clear_io_objects()
+            steps.append("clear_io_objects()")
+        cfg, txt = {}, []
+        for k in "DSCMR":
+            c = rng.choice(POOL[k] + [None, None])          # None: a class derived at this moment from a random pool class
+            if c is None:
+                parent = rng.choice(POOL[k] + [x for x in late if issubclass(x, BASE[k]) and (k != "C" or not issubclass(x, bc.StrandS))])
+                c = derive(rng, parent)
+                late.append(c)
+                held_intact(sessions, bad, f"after deriving a class from {parent.__name__}")
+                txt.append(f"{k}=<new subclass of {parent.__name__}>")
+            else:
+                txt.append(f"{k}={c.__name__}")
+            cfg[k] = c
+        kw = {k: c for k, c in cfg.items() if c is not BASE[k] or rng.random() < 0.5}
+        objectio.set_io_objects(**kw)
+        steps.append("set_io_objects(" + ", ".join(t for t in txt if t[0] in kw) + ")")
+        doc = session_doc(i, rng)
+        steps.append("held = read_pil(" + repr(doc) + ")")
+        try:
+            out = objectio.read_pil(doc)
+        except Exception as e:
+            bad.append(f"reading a consistent document in read {i} raised {type(e).__name__}: {e}")
+            break
+        sessions.append((cfg, out))
+        kinds = {"D": list(out["domains"].values()), "S": list(out["strands"].values()), "C": list(out["complexes"].values()),
+                 "M": list(out["macrostates"].values()), "R": list(out["det_reactions"]) + list(out["con_reactions"])}
+        inner = [("D", d, f"in {o.name}") for o in kinds["S"] + kinds["C"] for d in o.sequence if d != "+"]
+        inner += [("C", c, f"in {m.name}") for m in kinds["M"] for c in m.complexes]
+        inner += [("M" if r.rtype == "condensed" else "C", x, f"in a {r.rtype} reaction") for r in kinds["R"]
+                  for x in list(r.reactants) + list(r.products)]
+        for k, objs in kinds.items():
+            if not objs:
+                bad.append(f"read {i}: no {k} objects read")
+            inner += [(k, o, "in the result") for o in objs]
+        table = {"D": out["domains"], "S": out["strands"], "C": out["complexes"], "M": out["macrostates"]}
+        for k, o, where in inner:
+            if type(o) is not cfg[k]:
+                bad.append(f"read {i}: {k} object {o.name} {where} is a {type(o).__name__} (of {type(o).__mro__[1].__name__}), "
+                           f"configured class is {cfg[k].__name__}")
+            elif k in table and table[k].get(o.name) is not o:
+                bad.append(f"read {i}: {k} object {o.name} {where} is not the object the result lists under that name")
+        inner = None
+        held_intact(sessions, bad, f"after read {i}")
+        if bad:
+            break
+    objectio.clear_io_objects()
+    if not bad:
+        held_intact(sessions, bad, "after the final clear_io_objects()")
+    sessions = out = kinds = table = None
+    for c in late:
+        clear_singletons(c)
+    fresh()
+    return {"steps": steps, "what": bad[:4]} if bad else None
+
+
+def late_classes(rng):
+    """a class statement (or type()) executed while objects of every library class and of user classes are alive: the
+    new class gets registries of its own, empty, and NO registry of any existing class changes; every live object is still the
+    singleton of its name, conflicting requests are still refused"""
+    fresh()
+    bad, live, classes = [], [], list(ALL) + [D3, S2, M2]
+    doms = {}
+    for c in (bc.DomainS, D1, D2, D3):
+        doms[c] = [c("a", 5), c("b", 6)]
+        live += [(c, "D", o) for o in doms[c]]
+    a, b = doms[bc.DomainS]
+    cps = {}
+    for c in (bc.ComplexS, C1, C2):
+        x, y = doms[rng.choice(list(doms))]
+        cps[c] = [c([x, y, "+", ~y], list(".(+)"), name="k"), c([y, x], list(".."), name="l")]
+        live += [(c, "C", o) for o in cps[c]]
+    for c in (bc.StrandS, S1, S2):
+        live.append((c, "S", c([a, b, a], name="s")))
+    for c in (bc.MacrostateS, M1, M2):
+        cx = rng.choice(cps[bc.ComplexS])
+        live.append((c, "M", c([cx], name=cx.name)))
+    rx = [c([cps[bc.ComplexS][0]], [cps[bc.ComplexS][1]], "bind21") for c in (bc.ReactionS, R1, R2)]
+    snap = lambda: {c: (sorted((n, id(o)) for n, o in c._instanceNames.items()), sorted(id(o) for o in c._instanceCanon.values()))
+                    for c in classes}
+    order = list(classes)
+    rng.shuffle(order)
+    for parent in order:
+        before = snap()
+        child = derive(rng, parent)
+        after = snap()
+        for c in classes:
+            if before[c] != after[c]:
+                bad.append(f"deriving a class from {parent.__name__} changed the registry of {c.__name__}: "
+                           f"{len(before[c][0])} names / {len(before[c][1])} canonical forms before, {len(after[c][0])} / {len(after[c][1])} after")
+        if len(child._instanceNames) or len(child._instanceCanon):
+            bad.append(f"a class just derived from {parent.__name__} is born with a non-empty registry")
+        for c in classes:
+            if child._instanceNames is c._instanceNames or child._instanceCanon is c._instanceCanon:
+                bad.append(f"a class just derived from {parent.__name__} shares a registry with {c.__name__}")
+        for c, k, o in live:
+            try:
+                if LOOKUP[k](c, o.name) is not o:
+                    bad.append(f"after deriving from {parent.__name__}: {c.__name__} {o.name} is no longer the singleton of its name")
+            except Exception as e:
+                bad.append(f"after deriving from {parent.__name__}: live {c.__name__} {o.name} cannot be looked up ({type(e).__name__})")
+        for c in doms:
+            try:
+                other = c("b", 9)
+                bad.append(f"after deriving from {parent.__name__}: conflicting {c.__name__}('b', 9) accepted next to the live b of length 6")
+                del other
+            except SingletonError:
+                pass
+        classes.append(child)
+        if bad:
+            break
+    del live, doms, cps, rx, a, b, x, y, cx
+    for c in classes:
+        clear_singletons(c)
+    fresh()
+    return {"steps": ["objects of all classes alive", "derive a class from each class in turn"], "what": bad[:4]} if bad else None
+
+
 def main():
     req = json.load(sys.stdin)
     rng = random.Random(req.get("seed", 0))
@@ -294,6 +466,18 @@ def main():
         fresh()
     if r:
         fails.append(r)
-    json.dump({"failures": fails[:10]}, sys.stdout)
+    # later additions draw after everything above
+    for f, m in ((io_sessions, max(10, req.get("n", 50) // 2)), (late_classes, 3)):
+        seen = 0
+        for _ in range(m):
+            try:
+                r = f(rng) if seen < 3 else None          # three failing histories of one statement are enough
+            except Exception as e:
+                r = {"steps": [f.__name__], "what": [f"the statements of {f.__name__} raised {type(e).__name__}: {e}"]}
+                fresh()
+            if r:
+                seen += 1
+                fails.append(r)
+    json.dump({"failures": fails[:12]}, sys.stdout)
 
 main()
